@@ -173,7 +173,12 @@ class _Life:
             if cls == "unlock":
                 ok = ev.get("sw") == 0x9000 and resp is not None and len(resp) > 2 and resp[2] != 0
                 state["unlocked"] = ok
-                self.emit({"k": "unlock", "ok": "t" if ok else "f"})
+                # the PIN the device was asked to unlock with (its own buffer on Ledger, the APDU's on SGX)
+                try:
+                    shown = bytes(d.pinbuf).split(b"\x00")[0] if plat != "sgx" else bytes(ev["apdu"][3:])
+                except Exception:
+                    shown = b""
+                self.emit({"k": "unlock", "ok": "t" if ok else "f", "pin_bytes": shown.hex()})
             if cls == "change_pin":
                 if ev["apdu"][1] == 0xA5:
                     newpin = bytes(ev["apdu"][3:])
@@ -215,6 +220,23 @@ class _Life:
         world.faults = {}
         d.mode = MODE_BOOT
         d.exit_modes = [MODE_SIGNER]
+        if p.get("reboot") == "cut":
+            # the first repair is cut short by a time-out in the middle of the PIN transfer; the next request repairs again
+            world.reset_counters()
+            # (Ledger: one of the PIN byte transfers, exchanges 5..13 of the bring-up; SGX: the echo or retries query)
+            world.faults = {p.get("cut_at", 8 if plat != "sgx" else 4): ("timeout",)}
+            self.crash.point, armed2 = None, self.crash.point
+            try:
+                proto.handle_request(dict(req))
+            except BaseException:   # noqa
+                # anything escaping a request ends the manager
+                self.crash.point = armed2
+                self.crash.at("ending")
+                self.emit({"k": "end", "outcome": "stop", "mem_bytes": bytes(pin.get_pin()).hex()})
+                return
+            self.crash.point = armed2
+            world.faults = {}
+            world.reset_counters()
         self.crash.at("reboot")
         try:
             proto.handle_request(dict(req))
